@@ -46,6 +46,8 @@ impl Reservoir {
 
     fn push(&self, value: f64) {
         let idx = self.count.fetch_add(1, Relaxed);
+        #[cfg(metrics_verif)]
+        metrics::__verif::point("reservoir.push.claimed");
         if idx < self.values.len() {
             self.values[idx].store(value.to_bits(), Relaxed);
         } else {
@@ -58,6 +60,8 @@ impl Reservoir {
 
     fn drain(&self) -> Drain<'_> {
         let unsampled_len = self.count.load(Relaxed);
+        #[cfg(metrics_verif)]
+        metrics::__verif::point("reservoir.drain.len_loaded");
         let len = if unsampled_len > self.values.len() { self.values.len() } else { unsampled_len };
         Drain { reservoir: self, unsampled_len, len, idx: 0 }
     }
@@ -159,6 +163,8 @@ impl AtomicSamplingReservoir {
     /// Pushes a sample into the reservoir.
     pub fn push(&self, value: f64) {
         let use_primary = self.use_primary.load(Relaxed);
+        #[cfg(metrics_verif)]
+        metrics::__verif::point("reservoir.push.flag_loaded");
         if use_primary {
             self.primary.push(value);
         } else {
@@ -178,6 +184,8 @@ impl AtomicSamplingReservoir {
         // Swap the active reservoir.
         let use_primary = self.use_primary.load(Acquire);
         self.use_primary.store(!use_primary, Release);
+        #[cfg(metrics_verif)]
+        metrics::__verif::point("reservoir.consume.swapped");
 
         // Consume the previous reservoir.
         let drain = if use_primary { self.primary.drain() } else { self.secondary.drain() };
